@@ -24,6 +24,7 @@ package signaling
 import (
 	"context"
 	"encoding/json"
+	"errors"
 	"fmt"
 	"log"
 	"net/url"
@@ -87,6 +88,9 @@ type ClientSession struct {
 
 	publishers  map[StreamType]McuPublisher
 	subscribers map[string]McuSubscriber
+	// Incremented whenever the MCU objects of the session are released, used to
+	// detect publishers / subscribers that were created while this happened.
+	mcuReleases uint64
 
 	pendingClientMessages        []*ServerMessage
 	hasPendingChat               bool
@@ -378,6 +382,7 @@ func (s *ClientSession) getRoomJoinTime() time.Time {
 }
 
 func (s *ClientSession) releaseMcuObjects() {
+	s.mcuReleases++
 	if len(s.publishers) > 0 {
 		go func(publishers map[StreamType]McuPublisher) {
 			ctx := context.Background()
@@ -793,6 +798,12 @@ func (s *ClientSession) SubscriberClosed(subscriber McuSubscriber) {
 	}
 }
 
+var (
+	// ErrSessionReleased is returned if the MCU objects of a session were
+	// released while a new publisher / subscriber was being created.
+	ErrSessionReleased = errors.New("session released MCU objects")
+)
+
 type PermissionError struct {
 	permission Permission
 }
@@ -900,8 +911,8 @@ func (s *ClientSession) GetOrCreatePublisher(ctx context.Context, mcu Mcu, strea
 	publisher, found := s.publishers[streamType]
 	if !found {
 		client := s.getClientUnlocked()
+		releases := s.mcuReleases
 		s.mu.Unlock()
-		defer s.mu.Lock()
 
 		settings := NewPublisherSettings{
 			Bitrate:    data.Bitrate,
@@ -927,8 +938,18 @@ func (s *ClientSession) GetOrCreatePublisher(ctx context.Context, mcu Mcu, strea
 		}
 		var err error
 		publisher, err = mcu.NewPublisher(ctx, s, s.PublicId(), data.Sid, streamType, settings, client)
+		s.mu.Lock()
 		if err != nil {
 			return nil, err
+		}
+		if s.mcuReleases != releases || s.ctx.Err() != nil {
+			// The session left the room / call or was closed while the publisher
+			// was created, nobody would close it later.
+			go func(pub McuPublisher) {
+				closeCtx := context.Background()
+				pub.Close(closeCtx)
+			}(publisher)
+			return nil, ErrSessionReleased
 		}
 		if s.publishers == nil {
 			s.publishers = make(map[StreamType]McuPublisher)
@@ -1001,12 +1022,22 @@ func (s *ClientSession) GetOrCreateSubscriber(ctx context.Context, mcu Mcu, id s
 	subscriber, found := s.subscribers[getStreamId(id, streamType)]
 	if !found {
 		client := s.getClientUnlocked()
+		releases := s.mcuReleases
 		s.mu.Unlock()
 		var err error
 		subscriber, err = mcu.NewSubscriber(ctx, s, id, streamType, client)
 		s.mu.Lock()
 		if err != nil {
 			return nil, err
+		}
+		if s.mcuReleases != releases || s.ctx.Err() != nil {
+			// The session left the room / call or was closed while the subscriber
+			// was created, nobody would close it later.
+			go func(sub McuSubscriber) {
+				closeCtx := context.Background()
+				sub.Close(closeCtx)
+			}(subscriber)
+			return nil, ErrSessionReleased
 		}
 		if s.subscribers == nil {
 			s.subscribers = make(map[string]McuSubscriber)
